@@ -99,6 +99,13 @@ def guillotOp (args : List String) : Option String :=
     let q : GuillotParams Float := ⟨tirr, kir, kv1, kv2, al, tint⟩
     pure (fOutcome (fList fF) (guillot q g pr e1 e2))) args
 
+/-- `c12.scale factor profile` → list: `TempScaler.profile` over the wrapped class's profile -/
+def scaleOp (args : List String) : Option String :=
+  run (do
+    let s ← flt
+    let prof ← listOf flt
+    pure (fList fF (tempScaler s prof))) args
+
 /-- `c12.section defaults sections`: `defaults` = the constructor's keywords `(name, token)`, `sections` = the sections of
     one session, each a list of `(name, token)`; values are opaque tokens → per section `0` (KeyError) or
     `1 <tokens in constructor order>` -/
@@ -115,6 +122,7 @@ def sectionOp (args : List String) : Option String :=
 def ops : List Op :=
   [("c12.interp", interpOp), ("c12.linspace", linspaceOp), ("c12.movavg", movavgOp),
    ("c12.oddwindow", oddWindowOp), ("c12.iso", isoOp), ("c12.npoint", npointOp),
-   ("c12.rodgers", rodgersOp), ("c12.tarray", tarrayOp), ("c12.guillot", guillotOp), ("c12.section", sectionOp)]
+   ("c12.rodgers", rodgersOp), ("c12.tarray", tarrayOp), ("c12.guillot", guillotOp), ("c12.section", sectionOp),
+   ("c12.scale", scaleOp)]
 
 end Taurex.Ops.C12
